@@ -61,6 +61,8 @@ type Result struct {
 	States int64 `json:"states,omitempty"`
 	Trans  int64 `json:"trans,omitempty"`
 	Traces int64 `json:"traces,omitempty"`
+	// Capped: the case stopped at an internal time limit (the run is then not exhaustive)
+	Capped bool `json:"capped,omitempty"`
 	// additional named counters (summed)
 	Cnt map[string]int64 `json:"cnt,omitempty"`
 }
@@ -75,6 +77,7 @@ func Violation(class, msg string) Result {
 type Level struct {
 	Name string
 	Gen  func(emit func(Case))
+	Race bool // run by the workers built with the race detector (free-running pass)
 }
 
 // Check describes one property's bounded-exhaustive check.
@@ -93,10 +96,11 @@ type Check struct {
 	Race         bool          // workers are the -race binary
 	NoDedup      bool          // cases are distinct by construction (saves memory)
 	Init         func()        // run once in each worker before the first case
+	Procs        int           // GOMAXPROCS of the (non-race) workers; default 2
 }
 
 var registry = map[string]*Check{}
 
-func Register(c *Check)         { registry[c.ID] = c }
-func Lookup(id string) *Check   { return registry[id] }
-func All() map[string]*Check    { return registry }
+func Register(c *Check)       { registry[c.ID] = c }
+func Lookup(id string) *Check { return registry[id] }
+func All() map[string]*Check  { return registry }
